@@ -33,7 +33,7 @@ REQUIRED_LABELS = {"has:dense-noncanonical": 0.1, "has:array": 0.1, "has:callabl
 
 
 def budget(tier):
-    n = int(os.environ.get("KV_EXAMPLES", 0)) or (12000 if tier == "quick" else 80000)
+    n = int(os.environ.get("KV_EXAMPLES", 0)) or (24000 if tier == "quick" else 80000)
     return {"examples": n, "shards": 16, "wall": 90 if tier == "quick" else 900}
 
 
